@@ -32,12 +32,41 @@ H(ps, t) == [ps |-> ps, p |-> Cat(ps), t |-> t]
 S(ss) == Cat(ss)
 PiecesOf(hs) == UNION {Range(h.ps) : h \in hs}
 
-\* ---- heads: status lines.  Tail atoms: all small atoms.
-TailRpl == {a200, aSP, aHT, aCR, aLF, aA, a1}
+\* ---- tails
+Tail6 == {aSP, aHT, aCR, aLF, aA, a1}
+Tail4 == {aSP, aCR, aLF, aA}
+
+\* ---- status lines
 HeadsRpl == {
-  H(<<S(<<aSIP, aSP>>), S(<<a200, aSP, aA>>)>>, 5),             \* "SIP/2.0 " "200 a"  + " a\r\n1" ...
-  H(<<S(<<asip, aSP, a200>>), aSP>>, 5),                        \* "sip/2.0 200" " "   + "\r\n1" (empty reason) ...
-  H(<<aSIP, aSP, a1, a1, a1, aSP, aA, aHT, aA>>, 3),            \* "SIP/2.0 111 a\ta" in small atoms + "\r\n1"
+  H(<<S(<<aSIP, aSP>>), S(<<a200, aSP, aA>>)>>, 4),             \* "SIP/2.0 " "200 a"  + " a\r\n", "\r\n1", "\r1a" ...
+  H(<<S(<<asip, aSP, a200>>), aSP>>, 4),                        \* "sip/2.0 200" " "   + "\r\n1" (empty reason) ...
+  H(<<aSIP, aSP, a200, aSP>>, 3),                               \* the same in small atoms
+  H(<<S(<<aSIP, aSP>>), S(<<a200, aSP, aA>>), S(<<aA, aHT, aA, aSP>>)>>, 3) }   \* longer reason with HT/SP
+AtomsRpl == Tail6 \cup PiecesOf(HeadsRpl)
+
+\* ---- request lines: a ladder of heads, each explored with all short tails
+HeadsReq == {
+  H(<<S(<<aINVITE, aSP, aA>>), S(<<a1, aA, aSP, aSIP>>)>>, 3),          \* "INVITE a" "1a SIP/2.0" + "\r\n1" ...
+  H(<<S(<<aACK, aSP, aA, a1>>), S(<<aA, a1, aA, a1, aSP, aA>>)>>, 4),   \* 13 bytes, in the version: + "a\r\n1"
+  H(<<aACK, aSP, aA, aSP, aA, a1, aA, a1, aA, a1, aA, a1>>, 3),         \* small atoms: "ACK a a1a1a1a1" + "\r\n1"
+  H(<<S(<<aACK, aSP, aA, aSP, aA, aCR>>), S(<<aLF, aA, a1, aA, a1, aA>>)>>, 2),    \* short line, long enough buffer
+  H(<<S(<<aACK, aSP, aA, aSP, aA, aLF>>), S(<<aCR, aA, a1, aA, a1, aA>>)>>, 2),
+  H(<<S(<<aCR, aLF, aACK, aSP>>), S(<<aA, aSP, aA, aCR, aLF, aA, a1, aA>>)>>, 2) } \* empty line first
+AtomsReq == Tail6 \cup PiecesOf(HeadsReq)
+
+\* ---- resumption inside the method token (needs a token of 14 bytes) and inside the URI
+aMMM == S(<<aINVITE, aACK>>)        \* "INVITEACK"
+aAAAA == S(<<aA, aA, aA, aA>>)
+HeadsTok == {
+  H(<<aMMM, aAAAA>>, 3),                                        \* "INVITEACK" "aaaa" + "a a", " a ", HT, CR ...
+  H(<<aMMM, aAAAA, S(<<aA, aSP, aA>>)>>, 4),                    \* ... "a a"  (method resumed, in the URI) + " a\r\n"
+  H(<<aMMM, aAAAA, S(<<aA, aSP, aA>>), S(<<aSP, aA>>)>>, 3),    \* ... " a"   (in the version) + "\r\n1"
+  H(<<S(<<aACK, aSP>>), S(<<aA, a1, aA, a1, aA, a1, aA, a1, aA>>)>>, 3),            \* 13 bytes, in the URI
+  H(<<S(<<aACK, aSP>>), S(<<aA, a1, aA, a1, aA, a1, aA, a1, aA>>), S(<<a1, aSP, aA>>)>>, 3) }
+AtomsTok == Tail6 \cup PiecesOf(HeadsTok)
+
+\* ---- malformed lines (detected in the first call that sees 14 bytes)
+HeadsBad == {
   H(<<S(<<aSIP, aSP, a1, a1>>), S(<<aA, aSP, aA, aSP, aA>>)>>, 1),      \* non-digit status
   H(<<S(<<aSIP, aSP, aA>>), S(<<a1, a1, aSP, aA, aSP, aA>>)>>, 1),
   H(<<S(<<aSIP, aSP, a1, a1, aSP>>), S(<<aA, aSP, aA, aSP, aA>>)>>, 1), \* 2-digit status
@@ -47,16 +76,7 @@ HeadsRpl == {
   H(<<S(<<aSIP, aSP, a200, aHT>>), S(<<aA, aSP, aA>>)>>, 1),
   H(<<S(<<aSIP, aSP, a200>>), S(<<aCR, aLF, aA, aA>>)>>, 2),            \* no SP after the code
   H(<<S(<<aSP, aSIP, aSP>>), S(<<a200, aSP, aA, aCR, aLF>>)>>, 1),      \* leading SP
-  H(<<S(<<aSIP, a1, aSP>>), S(<<a200, aSP, aA>>)>>, 3) }                \* "SIP/2.01 200 a": a request
-AtomsRpl == TailRpl \cup PiecesOf(HeadsRpl)
-
-\* ---- heads: request lines
-TailReq == {aSIP, aACK, aSP, aHT, aCR, aLF, aA, a1}
-HeadsReq == {
-  H(<<S(<<aINVITE, aSP, aA>>), S(<<a1, aA, aSP, aSIP>>)>>, 4),          \* "INVITE a" "1a SIP/2.0" + "\r\n1" ...
-  H(<<S(<<aACK, aSP, aA, a1>>), S(<<aA, a1, aA, a1, aSP, aA>>)>>, 5),   \* 13 bytes, in the version
-  H(<<S(<<aACK, aSP>>), S(<<aA, a1, aA, a1, aA, a1, aA, a1, aA>>)>>, 6),\* 13 bytes, in the URI
-  H(<<aINVITE, aSP, aA, aSP, aA, a1, aA, a1, aA>>, 3),                  \* "INVITE a a1a1a" in small atoms + "\r\n1"
+  H(<<S(<<aSIP, a1, aSP>>), S(<<a200, aSP, aA>>)>>, 3),                 \* "SIP/2.01 200 a": a request
   H(<<S(<<aINVITE, aSP, aSP>>), S(<<aA, aSP, aA, aSP, aA, aA>>)>>, 1),  \* double SP
   H(<<S(<<aINVITE, aSP, aA, aSP, aSP>>), S(<<aA, aSP, aA, aA>>)>>, 1),
   H(<<S(<<aINVITE, aHT>>), S(<<aA, aSP, aA, aSP, aA, aSP, aA>>)>>, 1),  \* HT instead of SP
@@ -64,17 +84,8 @@ HeadsReq == {
   H(<<S(<<aSP, aINVITE, aSP>>), S(<<aA, aSP, aA, aSP, aA, aA>>)>>, 1),  \* leading SP
   H(<<S(<<aINVITE, aSP, aA, aCR>>), S(<<aLF, aA, aSP, aA, aA, aA>>)>>, 1),  \* missing token
   H(<<S(<<aINVITE, aCR, aLF>>), S(<<aA, aSP, aA, aSP, aA, aA, aA>>)>>, 1),
-  H(<<S(<<aINVITE, aSP, aA, aSP>>), S(<<aA, aSP, aA, aSP, aA>>)>>, 1),  \* four tokens
-  H(<<S(<<aACK, aSP, aA, aSP, aA, aCR>>), S(<<aLF, aA, a1, aA, a1, aA>>)>>, 2),   \* short line, long enough buffer
-  H(<<S(<<aACK, aSP, aA, aSP, aA, aLF>>), S(<<aCR, aA, a1, aA, a1, aA>>)>>, 2),
-  H(<<S(<<aCR, aLF, aACK, aSP>>), S(<<aA, aSP, aA, aCR, aLF, aA, a1, aA>>)>>, 2) }  \* empty line first
-AtomsReq == TailReq \cup PiecesOf(HeadsReq)
-
-\* ---- heads: resumption inside the method token (needs a 14 byte token) and inside a long URI
-TailTok == {aACK, aSP, aHT, aCR, aLF, aA}
-HeadsTok == { H(<<S(<<aINVITE, aACK>>), S(<<aA, aA, aA, aA>>)>>, 7),    \* "INVITEACK" "aaaa" + "a a a\r\na" ...
-              H(<<S(<<aACK, aSP, aA, aA>>), S(<<aA, aA, aA, aA, aA, aA>>)>>, 6) }
-AtomsTok == TailTok \cup PiecesOf(HeadsTok)
+  H(<<S(<<aINVITE, aSP, aA, aSP>>), S(<<aA, aSP, aA, aSP, aA>>)>>, 1) } \* four tokens
+AtomsBad == Tail4 \cup PiecesOf(HeadsBad)
 
 CfgsFL   == {[kind |-> "fline", start |-> s, flags |-> 0, hcap |-> -1, ccap |-> -1, pcap |-> -1] : s \in {0, 3}}
 CfgsFL0  == {[kind |-> "fline", start |-> 0, flags |-> 0, hcap |-> -1, ccap |-> -1, pcap |-> -1]}
@@ -82,24 +93,39 @@ CfgsFL0  == {[kind |-> "fline", start |-> 0, flags |-> 0, hcap |-> -1, ccap |-> 
 \* ---- the steering constraint
 Body == SubSeq(wire, cfg.start + 1, Len(wire))
 Compat(h, b) == \A k \in 1..(IF Len(h) < Len(b) THEN Len(h) ELSE Len(b)) : h[k] = b[k]
-HeadOK == LET b == Body IN \E h \in Heads : Compat(h.p, b) /\ Len(b) <= Len(h.p) + h.t
+InHeads(b) == \E h \in Heads : Compat(h.p, b) /\ Len(b) <= Len(h.p) + h.t
+HeadOK  == InHeads(Body)        \* the CONSTRAINT of the cfg files
+\* (TLC in -coverage mode cannot evaluate an operator that is both a CONSTRAINT and used in an invariant)
+Steered == InHeads(Body)
 
 \* TLC evaluates invariants also on the successor states that the constraint discards (once per
 \* predecessor); the invariants are therefore guarded by the constraint.
-ResumeEqFreshC == HeadOK => ResumeEqFresh
-StableC        == HeadOK => Stable
-OffsSaneC      == HeadOK => OffsSane
+ResumeEqFreshC == Steered => ResumeEqFresh
+StableC        == Steered => Stable
+OffsSaneC      == Steered => OffsSane
+
+\* ---- the calls of this behaviour once more, evaluated directly (hist = the cut points of the calls made).
+\* TLC's -coverage cannot attribute costs to operators reached through the INSTANCE substitution
+\* P_Call <- FLine_Call; this probe makes every arm of FLine.tla that the exploration reaches visible to it
+\* (and checks that the state of the object is a function of wire and cut points).
+RECURSIVE RunHist(_, _, _, _)
+RunHist(k, offs, st, e) ==
+  IF k > Len(hist) THEN [st |-> st, offs |-> offs, err |-> e]
+  ELSE LET r == FLine_Call(SubSeq(wire, 1, hist[k]), offs, st, cfg) IN RunHist(k + 1, r.offs, r.st, r.err)
+CovProbe == (vis > 0 /\ Steered) =>
+              LET r == RunHist(1, cfg.start, FLine_New(cfg), "more") IN
+                r.st = obj /\ r.offs = cont /\ r.err = verdict
 
 \* ---- oracle record
-Emit == (EmitOn /\ vis > 0 /\ HeadOK) =>
+Emit == (EmitOn /\ vis > 0 /\ Steered) =>
           PrintT(ToJson([k |-> "fline", cfg |-> cfg, wire |-> wire, cuts |-> hist,
                          offs |-> cont, err |-> verdict, obs |-> FLine_Obs(obj), int |-> obj]))
 
 \* ---- C08 on every state of the exploration (success => exact decomposition)
 CurRes == [err |-> verdict, offs |-> cont, obs |-> FLine_Obs(obj)]
-DeclCore  == (vis > 0 /\ HeadOK) => FLineDeclCore(SubSeq(wire, 1, vis), cfg.start, CurRes)
-DeclExtra == (vis > 0 /\ HeadOK) => FLineDeclExtra(SubSeq(wire, 1, vis), cfg.start, CurRes)
+DeclCore  == (vis > 0 /\ Steered) => FLineDeclCore(SubSeq(wire, 1, vis), cfg.start, CurRes)
+DeclExtra == (vis > 0 /\ Steered) => FLineDeclExtra(SubSeq(wire, 1, vis), cfg.start, CurRes)
 \* NOTE: the real code violates FLineDeclKind for status 000 (Request() is Status == 0), see MC_GenFLine;
 \* "000" cannot be built from the atoms used here, so DeclKind holds in these configurations.
-DeclKind  == (vis > 0 /\ HeadOK) => FLineDeclKind(SubSeq(wire, 1, vis), cfg.start, CurRes)
+DeclKind  == (vis > 0 /\ Steered) => FLineDeclKind(SubSeq(wire, 1, vis), cfg.start, CurRes)
 =============================================================================
